@@ -112,8 +112,14 @@ def main():
             "add_only": True,
         },
         "engines": [
-            {"name": "E1-stateright", "path": "harness/src/common/explore.rs", "serves_properties": [p for p in ALL if p in CHECKS and CHECKS[p].get("engine", "E1-stateright") == "E1-stateright"],
+            {"name": "E1-stateright", "path": "harness/src/common/explore.rs", "serves_properties": [p for p in ALL if p in CHECKS and CHECKS[p].get("engine", "E1-stateright").startswith("E1-stateright")],
              "kind_free_text": "explicit-state search (stateright 0.31 BFS/DFS, 16 threads) over histories; every transition re-executes the real sudachi code; always-property = agreement with a reference model"},
+            {"name": "E2-schedules", "path": "harness/src/checks/c18.rs", "serves_properties": ["C18"],
+             "kind_free_text": "hand-rolled CHESS-style stateless explorer: cooperative scheduler over sched_point hooks, iterative preemption bounding, replay-twice determinism check"},
+            {"name": "E3-sink-faults", "path": "harness/src/checks/c06.rs", "serves_properties": ["C06"],
+             "kind_free_text": "Write implementation failing (error / Ok(0) / one byte per call) at every byte offset of the compiler output"},
+            {"name": "E4-external", "path": "harness/src/checks/c19.rs", "serves_properties": ["C19"],
+             "kind_free_text": "bounded-exhaustive inputs / call sequences through the real sudachi binary and sudachipy extension in sub-processes, differential against the library"},
         ],
         "checks": checks,
         "not_applicable": na,
